@@ -138,11 +138,16 @@ func runC15(c *core.Ctx) {
 	if x == nil {
 		return
 	}
+	if xOnly(c) {
+		c15Index(c, x.k.g)
+		return
+	}
 	c15Validate(x)
 	c15Node(x)
 	c15Rank(x)
 	c15Sticky(x)
 	c15Dictionary(x)
+	c15Index(c, x.k.g)
 }
 
 // ---------------------------------------------------------------------------
